@@ -48,6 +48,7 @@ func init() {
 		cp(0x17d, 0x159, '@', '.', '/', '\'', 0xe1, '?', 'A', '\n', '\\', '"'),
 		cp(0x4e2d, 0x6587), cp(0x5d0), cp(0x627),
 		strings.Repeat("ab", 300), strings.Repeat("\\", 9), strings.Repeat("\"", 5),
+		"[NaN]", "x,NaN", "k:NaN", ",-Inf", ":+Inf", "[+Inf,-Inf]", ",null", ":true", "\":\"", "},{", "],[", "\",\"", ": ", ", ", "\n  ", "[\n]", "{ }", "0x1p-2", ".5", "5.", "+1", "1_0", "1e", "-", "+", "e9", "Infinity", "nan",
 	}
 	KeyPool = append([]string{".", "#", "a.b", "a#1", ".b", "#1", "..", "a.", "a#", "0", "1", "key", "k", "x", "y", "z", "inner", "list", "object", "id", "a", "b", "c"}, StrPool[:60]...)
 }
